@@ -420,7 +420,7 @@ func c10stream(raw json.RawMessage, scratch string) {
 	r := wk.ChildRes("C10")
 	base := prng.New(a.Seed).Split(0xC10)
 	for i := a.Start; i < a.End; i++ {
-		rng := base.Split(uint64(i))
+		rng := base.At(uint64(i))
 		n := rng.Range(1, 50)
 		var stream []byte
 		var vals []refresp.V
